@@ -116,13 +116,29 @@ func (p *frame) toBytes() []byte {
 	)
 }
 
+// fromBytes decodes one datagram. b must be exactly the bytes that were received:
+// the length field is checked against it. Initiate frames have a 10 byte header and
+// are read through a zero padded copy.
 func fromBytes(b []byte) (*frame, error) {
+	if len(b) < 10 {
+		return nil, errMalformedFrame
+	}
+	if len(b) < 12 {
+		flags := metaToFlags(b[1])
+		if !flags.REQ && !flags.RESP {
+			return nil, errMalformedFrame
+		}
+		b = append(append(make([]byte, 0, 12), b...), 0, 0)[:12]
+	}
 	dataLength := binary.BigEndian.Uint16(b[2:4])
+	if 12+int(dataLength) > len(b) {
+		return nil, errMalformedFrame
+	}
 	return &frame{
 		tubeID:     b[0],
 		flags:      metaToFlags(b[1]),
 		dataLength: dataLength,
-		data:       append([]byte(nil), b[12:12+dataLength]...),
+		data:       append([]byte(nil), b[12:12+int(dataLength)]...),
 		ackNo:      binary.BigEndian.Uint32(b[4:8]),
 		frameNo:    binary.BigEndian.Uint32(b[8:12]),
 	}, nil
